@@ -282,13 +282,13 @@ Theorem check_C08_sound c : check_C08 c = true ->
   match c with
   | CHist r steps => forall L o, In (L, o) steps -> step_meaning r L o
   | CCodec ents decoded dpacks => Permutation ents decoded /\ (forall p, In p dpacks <-> In p (map e_pack ents))
-  | CReject f crashed errored => crashed = false /\ (file_fits f = false -> errored = true)
+  | CReject f crashed errored => crashed = false /\ errored = negb (file_fits f)
   end.
 Proof.
   destruct c; cbn [check_C08]; intros H.
   - intros L o Hin. rewrite forallb_forall in H. apply step_ok_spec. apply (H (L, o) Hin).
   - apply andb_true_iff in H as [H1 H2]. split; [apply same_multiset_perm; exact H1|apply same_nset_spec; exact H2].
-  - apply andb_true_iff in H as [H1 H2]. apply negb_true_iff in H1. split; [exact H1|]. intros Hf. rewrite Hf in H2. exact H2.
+  - apply andb_true_iff in H as [H1 H2]. apply negb_true_iff in H1. split; [exact H1|]. apply Bool.eqb_prop. exact H2.
 Qed.
 
 (* the model's own observation of any history satisfies the oracle *)
